@@ -63,6 +63,8 @@ enum Act {
     PutMut { seq: i64, vlen: u16, saltlen: u8, bad_sig: u8, bad_target: bool },
     Announce { port: u16, implied: Option<i8> },
     Signed { dt_us: i64, bad_sig: bool },
+    /// let virtual time pass (only in the "aged" histories)
+    Wait { secs: u32 },
 }
 
 #[derive(Clone, Copy, Debug, PartialEq, Eq, Hash)]
@@ -127,6 +129,17 @@ fn alphabet() -> Vec<Sym> {
     v
 }
 
+/// Waiting times used by the token-age histories (seconds).
+const WAITS: [u32; 12] = [1, 30, 59, 61, 120, 240, 299, 301, 360, 599, 601, 1500];
+
+fn timed_alphabet() -> Vec<Sym> {
+    let mut v = alphabet();
+    for secs in WAITS {
+        v.push(Sym { who: P, act: Act::Wait { secs }, tok: Tok::Empty });
+    }
+    v
+}
+
 fn sym_json(s: &Sym) -> Value {
     let names = ["A", "A2(same ip)", "B(other ip)", "D(put-filtered)", "E(filtered)", "P"];
     json!({"who": names[s.who], "act": format!("{:?}", s.act), "token": format!("{:?}", s.tok)})
@@ -147,6 +160,7 @@ struct Env {
     store: Store,
     _s2: dht::Dht,
     filtered: bool,
+    counts: BTreeMap<&'static str, u64>,
 }
 
 fn new_env(seed: u64, filtered: bool) -> Env {
@@ -165,7 +179,7 @@ fn new_env(seed: u64, filtered: bool) -> Env {
         Reply::Resp(k) => k.res_bytes("token").map(|t| t.to_vec()).unwrap_or_default(),
         _ => vec![],
     };
-    Env { fx, cl, tok_other_server, store: Store::default(), _s2: s2.dht.clone(), filtered }
+    Env { fx, cl, tok_other_server, store: Store::default(), _s2: s2.dht.clone(), filtered, counts: BTreeMap::new() }
 }
 
 /// per-history payload context (fresh targets each history)
@@ -212,12 +226,35 @@ fn token_bytes(env: &Env, who: usize, tok: Tok, rng: &mut Rng) -> Vec<u8> {
     }
 }
 
-fn token_valid(who: usize, tok: Tok, env: &Env) -> bool {
-    match tok {
-        Tok::Own => env.cl[who].token.is_some(),
-        Tok::OfA => IPS[who] == IPS[A],
-        Tok::OfB => IPS[who] == IPS[B],
-        _ => false,
+#[derive(Clone, Copy, Debug, PartialEq, Eq)]
+enum Tv {
+    Must,
+    /// issued to this IP between one and two rotation intervals ago: the node may or may not still honour it
+    Either,
+    Stale,
+    No,
+}
+
+/// "A token this node recently issued to the sender's IP": clients use a token for up to one rotation
+/// interval (5 min, `Node::valid_token`), so a token younger than that must be honoured; the node documents
+/// `Tokens::validate` as "generated within the past 10 minutes" (BEP5: "tokens up to ten minutes old are
+/// accepted"), so one older than two intervals must be refused. One second of slack on both bounds.
+fn token_valid(who: usize, tok: Tok, env: &Env) -> Tv {
+    let src = match tok {
+        Tok::Own => who,
+        Tok::OfA if IPS[who] == IPS[A] => A,
+        Tok::OfB if IPS[who] == IPS[B] => B,
+        _ => return Tv::No,
+    };
+    let Some((_, issued)) = env.cl[src].token else { return Tv::No };
+    let age = env.fx.w.now().saturating_sub(issued);
+    let interval = 300 * crate::simnet::SEC;
+    if age + crate::simnet::SEC < interval {
+        Tv::Must
+    } else if age > 2 * interval + crate::simnet::SEC {
+        Tv::Stale
+    } else {
+        Tv::Either
     }
 }
 
@@ -233,6 +270,11 @@ fn exec(env: &mut Env, h: &mut H, s: &Sym, rng: &mut Rng) -> Option<(String, Str
     let effect: Option<Box<dyn FnOnce(&mut Store)>>;
     let reply;
     match s.act {
+        Act::Wait { secs } => {
+            env.fx.w.run_until(secs as u64 * crate::simnet::SEC, |_| false);
+            *env.counts.entry("virtual_seconds_waited").or_default() += secs as u64;
+            return None;
+        }
         Act::ReadPeers | Act::ReadSigned => {
             let signed = s.act == Act::ReadSigned;
             let ih = h.ih;
@@ -339,6 +381,17 @@ fn exec(env: &mut Env, h: &mut H, s: &Sym, rng: &mut Rng) -> Option<(String, Str
         Act::Signed { .. } => "announce_signed_peer",
         _ => "read",
     };
+    if !filtered_out {
+        *env.counts.entry(match tv {
+            Tv::Must => "writes_with_fresh_token",
+            Tv::Either => "writes_with_token_aged_5_to_10_min",
+            Tv::Stale => "writes_with_token_older_than_10_min",
+            Tv::No => "writes_with_foreign_or_forged_token",
+        }).or_default() += 1;
+        if tv == Tv::Either && faults.is_empty() {
+            *env.counts.entry(if reply.is_ack() { "aged_5_to_10_min_accepted" } else { "aged_5_to_10_min_refused" }).or_default() += 1;
+        }
+    }
     if filtered_out {
         if !matches!(reply, Reply::None) {
             return Some((format!("filter/replied/{kind}"), "a request vetoed by the request filter was answered".into(), json!({"reply": reply.short()})));
@@ -346,14 +399,20 @@ fn exec(env: &mut Env, h: &mut H, s: &Sym, rng: &mut Rng) -> Option<(String, Str
         return None;
     }
     let mut allowed = faults.clone();
-    if !tv {
+    if tv != Tv::Must {
         allowed.push(203);
     }
+    let must_reject = !faults.is_empty() || matches!(tv, Tv::No | Tv::Stale);
+    let must_accept = faults.is_empty() && tv == Tv::Must;
     match &reply {
         Reply::None => Some((format!("write/no-reply/{kind}"), "an unfiltered write got no reply".into(), json!({}))),
         Reply::Resp(_) => {
-            if !allowed.is_empty() {
-                let why = if !tv { format!("token-{:?}", s.tok) } else { payload_fault_name(&s.act) };
+            if must_reject {
+                let why = match tv {
+                    Tv::No => format!("token-{:?}", s.tok),
+                    Tv::Stale => "token-older-than-two-rotation-intervals".to_string(),
+                    _ => payload_fault_name(&s.act),
+                };
                 return Some((format!("write/accepted-must-reject/{kind}/{why}"), format!("write acknowledged although it must be rejected ({why})"), json!({"allowed_codes": allowed})));
             }
             if let Some(e) = effect {
@@ -362,7 +421,7 @@ fn exec(env: &mut Env, h: &mut H, s: &Sym, rng: &mut Rng) -> Option<(String, Str
             None
         }
         Reply::Err(code, msg) => {
-            if allowed.is_empty() {
+            if must_accept {
                 return Some((format!("write/rejected-must-accept/{kind}/e{code}"), format!("a valid, authorised write was rejected with {code} ({msg})"), json!({"token": format!("{:?}", s.tok)})));
             }
             if !allowed.contains(code) {
@@ -482,7 +541,7 @@ fn run_history(r: &mut Report, env: &mut Env, hist: &[Sym], class: &str, n: u64,
             break;
         }
         let st_after = (env.store.imm.len(), env.store.mutable.len(), env.store.peers.get(&h.ih).map(|m| m.len()).unwrap_or(0), env.store.signed.get(&h.ih).map(|m| m.len()).unwrap_or(0));
-        let is_write = !matches!(s.act, Act::ReadPeers | Act::ReadGetImm | Act::ReadGetMut | Act::ReadSigned);
+        let is_write = !matches!(s.act, Act::ReadPeers | Act::ReadGetImm | Act::ReadGetMut | Act::ReadSigned | Act::Wait { .. });
         if is_write {
             if st_after != st_before { accepted += 1 } else { rejected += 1 }
         }
@@ -495,6 +554,9 @@ fn run_history(r: &mut Report, env: &mut Env, hist: &[Sym], class: &str, n: u64,
         r.violation(&sig, &what, case(hist.len()), detail);
     }
     let _ = before;
+    for (k, v) in std::mem::take(&mut env.counts) {
+        r.add(k, v);
+    }
     r.add("requests", hist.len() as u64 + 4);
     if accepted > 0 {
         r.count("histories_with_accepted_write");
@@ -561,7 +623,68 @@ pub fn run(a: &Args) -> Report {
         r.count("random_histories");
     }
     report_panics(&mut r, env.fx.finish());
+    aged(&mut r, a, &mut rng);
     r
+}
+
+/// Token-age histories: a client obtains a token, virtual time passes under one of several traffic
+/// patterns (nothing at all, lookups only, writes only, a mix), then the client writes with the old token;
+/// afterwards it fetches a new token and writes again. Every write is judged by the age of the token it carries.
+fn aged(r: &mut Report, a: &Args, rng: &mut Rng) {
+    use Act::*;
+    let s = |who, act, tok| Sym { who, act, tok };
+    let wait = |secs: u32| s(P, Wait { secs }, Tok::Empty);
+    let imm = PutImm { size: 12, bad_hash: false };
+    let writes = [
+        imm,
+        PutMut { seq: 1, vlen: 9, saltlen: 4, bad_sig: 0, bad_target: false },
+        Announce { port: 4242, implied: None },
+        Signed { dt_us: 0, bad_sig: false },
+    ];
+    // total ages (seconds) the old token reaches; WAITS holds the pieces they are composed of
+    let ages: [&[u32]; 12] = [&[1], &[240], &[299], &[301], &[360, 61], &[599], &[601], &[301, 301], &[360, 360], &[301, 301, 301], &[599, 599], &[1500, 1500]];
+    let n_hist = (if a.quick() { 96 } else { 1920 }) / a.nshards.max(1);
+    let mut env = new_env(mix(a.seed, 0xa6ed + a.shard), false);
+    for i in 0..n_hist {
+        if i % 16 == 15 {
+            report_panics(r, env.fx.finish());
+            env = new_env(mix(a.seed, 0xa6ed + i * 131 + a.shard), false);
+        }
+        let pieces = ages[((i + a.shard) % ages.len() as u64) as usize];
+        let pattern = ((i + a.shard) / ages.len() as u64 + rng.below(4)) % 4;
+        let mut hist = vec![s(A, ReadPeers, Tok::Own), s(B, ReadGetImm, Tok::Own)];
+        for &secs in pieces {
+            hist.push(wait(secs));
+            match pattern {
+                0 => {}
+                1 => hist.push(s(B, if rng.below(2) == 0 { ReadPeers } else { ReadGetMut }, Tok::Own)),
+                2 => hist.push(s(B, *rng.pick(&writes), if rng.below(2) == 0 { Tok::Own } else { Tok::Random })),
+                _ => {
+                    let alpha = alphabet();
+                    for _ in 0..1 + rng.usize(3) {
+                        let x = *rng.pick(&alpha);
+                        // keep A's old token: A (and A2, same IP) must not look anything up meanwhile
+                        if !(matches!(x.act, ReadPeers | ReadGetImm | ReadGetMut | ReadSigned) && (x.who == A || x.who == A2)) {
+                            hist.push(x);
+                        }
+                    }
+                }
+            }
+        }
+        hist.push(s(if rng.below(4) == 0 { A2 } else { A }, *rng.pick(&writes), if rng.below(4) == 0 { Tok::OfA } else { Tok::Own }));
+        // A2 has its own (equally old or older) token only if it is A's: use OfA for A2
+        if let Some(last) = hist.last_mut() {
+            if last.who == A2 {
+                last.tok = Tok::OfA;
+            }
+        }
+        hist.push(s(A, ReadSigned, Tok::Own));
+        hist.push(s(A, *rng.pick(&writes), Tok::Own));
+        run_history(r, &mut env, &hist, "aged", mix(a.shard, i) | 1 << 41, rng);
+        r.count("aged_histories");
+        r.count(["aged_pattern_idle", "aged_pattern_lookups_only", "aged_pattern_writes_only", "aged_pattern_mixed"][pattern as usize]);
+    }
+    report_panics(r, env.fx.finish());
 }
 
 fn report_panics(r: &mut Report, panics: Vec<(String, String, String)>) {
@@ -573,7 +696,7 @@ fn report_panics(r: &mut Report, panics: Vec<(String, String, String)>) {
 fn replay(path: &str, a: &Args) -> Report {
     let mut r = Report::new("C03");
     let v: Value = serde_json::from_str(&std::fs::read_to_string(path).unwrap_or_default()).unwrap_or_default();
-    let alpha = alphabet();
+    let alpha = timed_alphabet();
     let hist: Vec<Sym> = v["case"]["history"]
         .as_array()
         .map(|h| h.iter().filter_map(|e| alpha.iter().find(|s| sym_json(s) == *e).copied()).collect())
